@@ -183,6 +183,8 @@ func c03iGenModel(t *rapid.T) c03iModelCase {
 		c.Q = c.P
 	case 1:
 		c.Q = h.PointSpec{A: h.Hex(ref.SEncode(ref.SNeg(ref.FromLE(c.P.A)))), J: (8 - c.P.J%8) % 8, Cls: "neg-of-p"}
+	case 3: // -p + T[4] = (x, -y)
+		c.Q = h.PointSpec{A: h.Hex(ref.SEncode(ref.SNeg(ref.FromLE(c.P.A)))), J: (12 - c.P.J%8) % 8, Cls: "mirror-of-p"}
 	case 2:
 		c.Q = h.PointSpec{A: c.P.A, J: rapid.IntRange(0, 7).Draw(t, "qj"), Cls: "p+torsion"}
 	default:
@@ -480,7 +482,7 @@ func c03iGenMSM(t *rapid.T, large bool) c03iMSMCase {
 	if n < 800 {
 		c.Pad8 = rapid.SampledFrom([]int{800, 801, 850}).Draw(t, "pad8")
 	}
-	c.PadKind = rapid.IntRange(0, 5).Draw(t, "padkind")
+	c.PadKind = rapid.IntRange(0, 7).Draw(t, "padkind")
 	c.PadSeed = rapid.Uint64().Draw(t, "padseed")
 	return c
 }
@@ -489,21 +491,23 @@ var c03iPadPool = []h.PointSpec{
 	{A: h.Hex{1}, J: 0}, {A: h.Hex{0}, J: 1}, {A: h.Hex{0}, J: 0}, {A: h.Hex{7}, J: 3}, {A: h.Hex{2}, J: 4},
 }
 
-// c03iFillerScalar: 0 = zero, 1 = L (zero mod L but not for the torsion part),
-// 2 = small, 3 = uniform 255-bit, 4 = top of the range, 5 = 2^(w-1) windows.
+// c03iFillerScalar: kinds 0..2 = zero (the cheap default: the wide window then
+// runs over exactly the real terms), 3 = L (zero mod L but not for the torsion
+// part), 4 = small, 5 = uniform 255-bit, 6 = top of the range, 7 = 2^(w-1)
+// windows.
 func c03iFillerScalar(kind int, seed uint64, i int) h.Hex {
-	switch kind % 6 {
-	case 0:
+	switch kind & 7 {
+	case 0, 1, 2:
 		return make(h.Hex, 32)
-	case 1:
-		return h.Hex(ref.ToLE(ref.L, 32))
-	case 2:
-		return h.Hex(ref.ToLE(big.NewInt(int64(i%200+1)), 32))
 	case 3:
+		return h.Hex(ref.ToLE(ref.L, 32))
+	case 4:
+		return h.Hex(ref.ToLE(big.NewInt(int64(i%200+1)), 32))
+	case 5:
 		b := h.Expand(seed+uint64(i)*0x9e37, 32)
 		b[31] &= 0x7f
 		return b
-	case 4:
+	case 6:
 		v := new(big.Int).Lsh(big.NewInt(1), 255)
 		v.Sub(v, big.NewInt(int64(i%300+1)))
 		return h.Hex(ref.ToLE(v, 32))
